@@ -1,5 +1,5 @@
 import json, os, glob, sys
-rnd = sys.argv[1] if len(sys.argv)>1 else '5'
+rnd = sys.argv[1] if len(sys.argv)>1 else '6'
 base = '/tmp/seed%s' % rnd
 props = {}
 for l in open('/verif/properties.jsonl'):
@@ -7,7 +7,7 @@ for l in open('/verif/properties.jsonl'):
 prior = {}
 for m in glob.glob('/verif/seeded/*/meta.json'):
     d = json.load(open(m)); prior.setdefault(d['property'], []).append(d['needs_to_manifest'])
-TEMPLATE = open('/tmp/seed5/template.md').read()
+TEMPLATE = open('/verif/tools/seed_prompt_template.md').read()
 for pid, p in props.items():
     text = "### %s — %s\n\n**Statement.** %s\n\n**Holds for.** %s\n\n**Why the existing tests cannot settle it.** %s\n\n**Where it lives (anchors).**\n" % (pid, p['title'], p['statement'], p['quantifier']['text'], p['why_tests_cant'])
     for m in p['anchors'].get('mechanism', []):
